@@ -903,6 +903,9 @@ def run(ctx, load):
     ctx.floor('C04.fresh-slot', 5)
     check_list_count(P, ctx)
     check_tuple_terminated(P, ctx)
+    from . import seqmodel
+    seqmodel.report_list_ops(P, ctx, 'C04.list-operations', 'valid', site)
+    ctx.floor('C04.list-operations', 9)
     check_full_scans(P, ctx)
     # sort exchanges elements with swap(), whose fallback is memswap: every byte of both operands must be exchanged
     from .rules_c10 import check_memswap
